@@ -1,4 +1,5 @@
-"""C19 (claimed only for its combinatorial clauses): fixed-cardinality sampling, binomial coefficients, enumerated supports."""
+"""C19 (claimed for its combinatorial clauses and the direct estimator): fixed-cardinality sampling, binomial coefficients, enumerated supports;
+DirectEstimator unbiased in value and gradient (dual-number cells)."""
 import itertools
 import math
 import torch
@@ -166,19 +167,170 @@ class BinomH(Harness):
         return dict(outputs=binom.tolist(), failures=failures)
 
 
+class DirectEstimatorH(Harness):
+    """DirectEstimator (REINFORCE, optional control variate) is unbiased in value and in gradient: averaged over the whole sample space of mc draws of
+    n independent Bernoulli variables, the returned value equals E[f] and its derivative with respect to every probability equals dE[f]/dp.
+    Differentiation is carried by dual-number cells (forward mode; `detach` drops tangents), f and the control variate take arbitrary real values per
+    outcome (solver variables), probabilities lie on a grid (forked).  cfg: n, mc, cv"""
+    functions = ["pydrobert.torch._mc.DirectEstimator.__call__", "pydrobert.torch._mc.MonteCarloEstimator.__init__"]
+
+    def _outcomes(self):
+        return list(itertools.product((0, 1), repeat=self.cfg["n"]))
+
+    def symbolic(self, eng):
+        from symtorch.scalar import Dual, s_mul, s_sub, s_div
+        from pydrobert.torch.estimators import DirectEstimator
+        c = self.cfg
+        n, mc = c["n"], c["mc"]
+        import fractions
+        pv = [fractions.Fraction(eng.decide_int(eng.int(f"p{i}", 1, 3)), 4) for i in range(n)]          # probabilities 1/4, 1/2, 3/4 (forked)
+        rv = lambda q: z3.RealVal(str(fractions.Fraction(q)))                                           # exact rational constants (no float rounding)
+        ps = [Dual(rv(pv[i]), {f"p{i}": rv(1)}) for i in range(n)]
+        outs = self._outcomes()
+        f = {b: eng.real("f" + "".join(map(str, b)), -4, 4) for b in outs}
+        cvv = {b: eng.real("c" + "".join(map(str, b)), -4, 4) for b in outs} if c["cv"] else None
+
+        def prob(b):        # P(b) as a dual number
+            acc = 1.0
+            for i, bi in enumerate(b):
+                acc = s_mul(acc, ps[i] if bi else s_sub(1.0, ps[i]))
+            return acc
+
+        def expect(vals):   # closed form sum_b P(b) vals[b]: value and exact gradient by the product/sum rules
+            acc = 0.0
+            for b in outs:
+                acc = s_add(acc, s_mul(prob(b), vals[b]))
+            return acc
+
+        exact = expect(f)
+        mu = expect(cvv) if c["cv"] else None
+
+        def log_stub(e, func, ov, a):
+            out = []
+            for x in a.vals():
+                if isinstance(x, Dual):
+                    q = z3.simplify(x.val).as_fraction()     # the argument is a known rational (p or 1 - p)
+                    # d log(x) = dx / x exactly; the value itself only ever cancels (deriv - deriv.detach()), a float stands in for it
+                    out.append(Dual(math.log(float(q)), {k: to_real_expr(t) * rv(1 / q) for k, t in x.tan.items()}))
+                else:
+                    out.append(math.log(float(x)))
+            return e.tensor(out, a.shape, a.dtype)
+
+        def detach_stub(e, func, ov, a):
+            return e.tensor([x.val if isinstance(x, Dual) else x for x in a.vals()], a.shape, a.dtype)
+
+        eng.stubs["log"] = log_stub
+        eng.stubs["detach"] = detach_stub
+        cur = {}
+
+        class Proposal(torch.distributions.Distribution):
+            """n independent Bernoulli variables; sample() returns the outcome tuple under enumeration"""
+            arg_constraints = {}
+
+            def __init__(self):
+                super().__init__(torch.Size([]), torch.Size([n]), validate_args=False)
+
+            def sample(self, shape=torch.Size()):
+                return torch.tensor(cur["b"], dtype=torch.float32)
+
+            def log_prob(self, b):
+                p = eng.tensor(ps, (n,), torch.float32)
+                return (b * torch.log(p) + (1 - b) * torch.log(1 - p)).sum(-1)
+
+        def pick(table):
+            def fn(b):
+                rows = [tuple(int(x) for x in r) for r in b.tolist()]
+                return eng.tensor([table[r] for r in rows], (len(rows),), torch.float32)
+            return fn
+
+        avg_val, avg_tan = 0.0, {f"p{i}": 0.0 for i in range(n)}
+        for tup in itertools.product(outs, repeat=mc):
+            cur["b"] = [list(b) for b in tup]
+            w = fractions.Fraction(1)
+            for b in tup:
+                for i, bi in enumerate(b):
+                    w *= pv[i] if bi else 1 - pv[i]
+            w = rv(w)
+            est = DirectEstimator(Proposal(), pick(f), mc, pick(cvv) if c["cv"] else None, eng.tensor([mu], (), torch.float32) if c["cv"] else None)
+            v = est()
+            cell_ = v.vals()[0]
+            cell_ = cell_ if isinstance(cell_, Dual) else Dual(cell_, {})
+            avg_val = s_add(avg_val, s_mul(w, cell_.val))
+            for k in avg_tan:
+                avg_tan[k] = s_add(avg_tan[k], s_mul(w, cell_.tan.get(k, 0.0)))
+        viol = [("the estimate averaged over the sample space differs from the exact expectation", s_cmp("ne", avg_val, exact.val))]
+        for k in avg_tan:
+            viol.append((f"the gradient with respect to {k}, averaged over the sample space, differs from the exact derivative of the expectation",
+                         s_cmp("ne", avg_tan[k], exact.tan.get(k, 0.0))))
+        return dict(outputs=[], viol=viol)
+
+    def concrete(self, vals):
+        from pydrobert.torch.estimators import DirectEstimator
+        c = self.cfg
+        n, mc = c["n"], c["mc"]
+        outs = self._outcomes()
+        p = torch.tensor([vals[f"p{i}"] / 4 for i in range(n)], dtype=torch.float64, requires_grad=True)
+        f = {b: float(vals["f" + "".join(map(str, b))]) for b in outs}
+        cvv = {b: float(vals["c" + "".join(map(str, b))]) for b in outs} if c["cv"] else None
+
+        def prob(b):
+            acc = torch.ones((), dtype=torch.float64)
+            for i, bi in enumerate(b):
+                acc = acc * (p[i] if bi else 1 - p[i])
+            return acc
+
+        exact = sum(prob(b) * f[b] for b in outs)
+        g_exact = torch.autograd.grad(exact, p, retain_graph=True)[0]
+        mu = sum(prob(b) * cvv[b] for b in outs) if c["cv"] else None
+        cur = {}
+
+        class Proposal(torch.distributions.Bernoulli):
+            def sample(self, shape=torch.Size()):
+                return torch.tensor(cur["b"], dtype=torch.float64)
+
+        def pick(table):
+            return lambda b: torch.tensor([table[tuple(int(x) for x in r)] for r in b.tolist()], dtype=torch.float64)
+
+        avg = torch.zeros((), dtype=torch.float64)
+        g_avg = torch.zeros(n, dtype=torch.float64)
+        for tup in itertools.product(outs, repeat=mc):
+            cur["b"] = [list(b) for b in tup]
+            w = 1.0
+            for b in tup:
+                w *= float(prob(b))
+            prop = torch.distributions.Independent(Proposal(probs=p, validate_args=False), 1)
+            prop.sample = lambda shape=torch.Size(): torch.tensor(cur["b"], dtype=torch.float64)
+            v = DirectEstimator(prop, pick(f), mc, pick(cvv) if c["cv"] else None, mu if c["cv"] else None)()
+            avg = avg + w * v.detach()
+            g_avg = g_avg + w * torch.autograd.grad(v, p, retain_graph=True)[0]
+        failures = []
+        if abs(float(avg) - float(exact)) > 1e-9:
+            failures.append(f"average estimate {float(avg)} != exact expectation {float(exact)}")
+        if not torch.allclose(g_avg, g_exact, atol=1e-9):
+            failures.append(f"average gradient {g_avg.tolist()} != exact gradient {g_exact.tolist()}")
+        return dict(outputs=[], failures=failures)
+
+
 META = dict(
-    functions=sorted(set(SrswrH.functions + BinomH.functions)),
-    files=["src/pydrobert/torch/_combinatorics.py"],
+    functions=sorted(set(SrswrH.functions + BinomH.functions + DirectEstimatorH.functions)),
+    files=["src/pydrobert/torch/_combinatorics.py", "src/pydrobert/torch/_mc.py"],
     explanation=(
-        "Only the combinatorial clauses of C19 are claimed.  simple_random_sampling_without_replacement runs with symbolic total/given counts and every "
+        "The combinatorial clauses of C19 and the direct (REINFORCE) estimator are claimed.  simple_random_sampling_without_replacement runs with symbolic total/given counts and every "
         "Bernoulli outcome a solver variable constrained only by its contract (impossible at p=0, certain at p=1): the sample always has exactly given_count "
         "ones, all inside the first total_count positions, every entry 0 or 1.  binomial_coefficient on symbolic (length, count) equals Pascal's triangle; the "
         "tensor form of enumerate_binary_sequences_with_cardinality lists, per element, exactly C(length,count) pairwise distinct binary rows with `count` ones "
-        "inside the first `length` positions."),
+        "inside the first `length` positions.  DirectEstimator.__call__ runs once per point of the sample space of mc draws of n independent Bernoulli variables "
+        "(the proposal's sample() returns the enumerated outcome) with the function and control-variate values of every outcome as solver variables and the "
+        "probabilities carried as dual numbers (forward-mode differentiation through the library's own arithmetic; detach drops tangents; d log x = dx/x): the "
+        "probability-weighted average of the returned value equals E[f] and the average of its derivative with respect to every probability equals dE[f]/dp, with "
+        "and without a control variate whose mean is a differentiable function of the probabilities.  Counterexamples are replayed with torch autograd."),
     bounds=dict(quick="sampling: batch 2, total_count <= 3; coefficients: batch 2, length/count <= 4; enumeration: batch 2, length <= 3",
-                thorough="sampling: total_count <= 5 with padded out_size; coefficients: length/count <= 6; enumeration: length <= 4"),
-    assumptions=["torch.bernoulli stubbed by its contract", "integers mathematical (factorials up to 7! are far from overflow)"],
-    outside=["unbiasedness of the direct / importance-sampling / enumeration / relaxation estimators and of their gradients, Metropolis-Hastings acceptance, relaxed Bernoulli/categorical "
+                thorough="sampling: total_count <= 5 with padded out_size; coefficients: length/count <= 6; enumeration: length <= 4",
+                estimator="quick: n<=2 variables, mc<=2 draws, probabilities in {1/4,1/2,3/4} (forked), outcome values real in [-4,4]; thorough: n<=3, mc<=3"),
+    assumptions=["torch.bernoulli stubbed by its contract", "integers mathematical (factorials up to 7! are far from overflow)",
+                 "estimator: real arithmetic; the proposal is a harness-defined product of Bernoulli variables whose log_prob is b log p + (1-b) log(1-p); forward-mode dual numbers stand in for "
+                 "reverse-mode autograd (same derivative); f does not depend on the parameters; is_log=False"],
+    outside=["unbiasedness of the importance-sampling / enumeration / relaxation estimators and of their gradients, the direct estimator in log space, Metropolis-Hastings acceptance, relaxed Bernoulli/categorical "
              "densities and conditional samples: identities between exp/log/sigmoid/logsumexp expressions and reverse-mode derivatives, not derivable with uninterpreted "
              "transcendentals, and autograd graphs over symbolic cells are not encoded; the property's own method (exhaustive summation, quadrature) is enumeration, not solving",
              "lengths above 20 (the alternative recursion in binomial_coefficient)"],
@@ -193,4 +345,6 @@ def tasks(tier):
           task(PROP, M_, "SrswrH", B=1, tmax=3 if q else 4, out_extra=2, nvalidate=1),
           task(PROP, M_, "BinomH", B=2, lmax=4 if q else 6, enum=False, nvalidate=1),
           task(PROP, M_, "BinomH", B=2, lmax=3 if q else 4, enum=True, nvalidate=1)]
+    for n, mc, cv in ((2, 1, True), (1, 2, True), (2, 1, False)) if q else ((2, 1, True), (1, 2, True), (2, 1, False), (2, 2, True), (1, 3, True), (3, 1, True), (2, 2, False)):
+        ts.append(task(PROP, M_, "DirectEstimatorH", n=n, mc=mc, cv=cv, nvalidate=0))
     return ts
